@@ -561,11 +561,10 @@ Proof.
       destruct (size =? 0) eqn:Es; [apply Nat.eqb_eq in Es; lia|].
       rewrite aget_cons_same. split; [reflexivity|].
       rewrite app_length, junkbytes_length, slice_length by assumption.
-      repeat split; try lia.
-      * rewrite firstn_app, slice_length, Nat.sub_diag by assumption. cbn [firstn]. rewrite app_nil_r.
-        rewrite <- (slice_length (t_data t) (tl_off c t) (TL c)) at 1 by assumption. apply firstn_all.
-      * f_equal. lia.
-      * f_equal. f_equal. lia.
+      split.
+      { rewrite firstn_app, slice_length, Nat.sub_diag by assumption. cbn [firstn]. rewrite app_nil_r.
+        rewrite <- (slice_length (t_data t) (tl_off c t) (TL c)) at 1 by assumption. apply firstn_all. }
+      repeat split; try lia; try (f_equal; lia); try (f_equal; f_equal; lia).
     + apply Nat.eqb_neq in E2. destruct (W2 E2) as (b & bytes & Hs & Hg & Hl). rewrite Hs in *. rewrite Hg in *.
       inversion Hv; subst old; clear Hv.
       destruct (size <=? t_tlsz t) eqn:E3.
@@ -581,10 +580,9 @@ Proof.
         rewrite aget_cons_same. split; [reflexivity|].
         rewrite (firstn_all2 bytes) by lia.
         rewrite app_length, junkbytes_length.
-        repeat split; try lia.
-        -- rewrite firstn_app, Nat.sub_diag, firstn_all. cbn [firstn]. now rewrite app_nil_r.
-        -- f_equal. lia.
-        -- f_equal. f_equal. lia.
+        split.
+        { rewrite firstn_app, Nat.sub_diag, firstn_all. cbn [firstn]. now rewrite app_nil_r. }
+        repeat split; try lia; try (f_equal; lia); try (f_equal; f_equal; lia).
 Qed.
 
 (* for every request sequence of a task, interleaved with anything the other tasks do *)
@@ -691,7 +689,7 @@ Proof.
     rewrite Nat.add_0_r. rewrite <- Hl. f_equal. apply slice_upd_same. lia.
   - destruct (t_slot t) as [b|]; [|discriminate]. rewrite Hv in H.
     destruct (0 + length bs <=? length old); [|discriminate]. inversion H; subst; clear H.
-    cbn [s_tasks s_heap]. rewrite Ht, E2. rewrite aget_aset_same. f_equal.
+    cbn [s_tasks s_heap]. rewrite Ht, E2. cbn beta iota. rewrite aget_aset_same. f_equal.
     unfold upd_range. cbn [firstn plus app]. rewrite Hl, skipn_all. apply app_nil_r.
 Qed.
 
